@@ -315,6 +315,15 @@ def none_safe(func, use, text, def_stmt=None):
     for e, pol in expr_guards(use, un[0].ast):
         if accept(e, pol):
             return None
+    # a dereference inside `try: ... except AttributeError` is the EAFP form of the None test
+    st = use
+    while st is not None and not isinstance(st, ast.stmt):
+        st = getattr(st, '_parent', None)
+    if st is not None:
+        for t in enclosing_handlers(st, func):
+            for h in t.handlers:
+                if handler_types(h) & {'AttributeError', 'Exception', 'BaseException', '*'}:
+                    return None
     ids = {n.id for n in un}
     var = text if text.isidentifier() else None
 
